@@ -166,7 +166,13 @@ const (
 	lenAny0 = 3 // observer mode only: absent counts 0, no case split (math.Max(0,l))
 )
 
-func decorate(t *tree.Tree, lenMode int, supports bool) {
+const (
+	supNone    = 0 // no inner branch has a support
+	supAny     = 1 // every inner branch: symbolic support, absent (-1) or >= 0
+	supPresent = 2 // every inner branch has a symbolic support >= 0
+)
+
+func decorate(t *tree.Tree, lenMode int, supMode int) {
 	for i, e := range t.Edges() {
 		switch lenMode {
 		case lenAll:
@@ -178,9 +184,13 @@ func decorate(t *tree.Tree, lenMode int, supports bool) {
 			sxAssume(l >= 0 || l == -1)
 			e.SetLength(l)
 		}
-		if supports && !e.Right().Tip() {
+		if supMode != supNone && !e.Right().Tip() {
 			sp := sxLen(fmt.Sprintf("sup%d", i))
-			sxAssume(sp >= 0 || sp == -1)
+			if supMode == supPresent {
+				sxAssume(sp >= 0)
+			} else {
+				sxAssume(sp >= 0 || sp == -1)
+			}
 			e.SetSupport(sp)
 		}
 	}
